@@ -257,6 +257,8 @@ OnDo(m, e) ==
   LET p == e.p  t == e.t  a == e.a IN
   CASE e.op = "tadd" ->
          [m |-> [m EXCEPT !.timers[p] = @ \cup {[k |-> e.out[2], due |-> t + a[1], sig |-> a[2]]}, !.ntim[p] = e.out[2]], bad |-> {}]
+    [] e.op = "taddo" ->      \* a timer armed for process a[1] by another process: it is a[1]'s timer from now on
+         [m |-> [m EXCEPT !.timers[a[1]] = @ \cup {[k |-> e.out[2], due |-> t + a[2], sig |-> a[3]]}, !.ntim[a[1]] = e.out[2]], bad |-> {}]
     [] e.op = "tcancel" ->
          LET x == {y \in m.timers[p] \cup m.maybe[p] : y.k = a[1]} IN
          [m |-> [m EXCEPT !.timers[p] = @ \ x, !.maybe[p] = @ \ x],
